@@ -40,6 +40,17 @@ def _run(d):
             us0 = serial.US0
             x0 = [float(v) for v in sc.system.state.convert(us0).value]
             dx = [float(v) for v in kinetics.compute_dstatedt(sc.system).convert(us0).value]
+            # bare numbers handed to a system are in the system's own units, whatever units its parts were described in:
+            # writing every entry back as the bare number that expresses it in those units (entry by entry, then the whole
+            # array at once) changes nothing
+            sys2 = sc.system.copy()
+            for s_ in range(sys2.network.nspecies()):
+                for c_ in range(sys2.space.size()):
+                    sys2.set_state(s_, c_, float(sys2.get_state(s_, c_).convert(sys2.units_system).value))
+            x0w = [float(v) for v in sys2.state.convert(us0).value]
+            sys3 = sc.system.copy()
+            sys3.state = [float(v) for v in sys3.state.convert(sys3.units_system).value]
+            x0a = [float(v) for v in sys3.state.convert(us0).value]
             out = simulate_script(sc, build.make_engine("euler", lib=_lib))
             data = [float(v) for v in out.data.convert(us0).value]
             t = [float(v) for v in out.t.convert(us0).value]
@@ -62,7 +73,7 @@ def _run(d):
                     cg[name] = {"x0": [float(v) for v in cs.state.convert(us0).value],
                                 "vol": [float(v) for v in cs.space.get_cell_vol_array().convert(us0).value],
                                 "data": [float(v) for v in o2.data.convert(us0).value]}
-            msg = pickle.dumps(("ok", {"x0": x0, "dxdt": dx, "data": data, "t": t, "cg": cg,
+            msg = pickle.dumps(("ok", {"x0": x0, "dxdt": dx, "data": data, "t": t, "cg": cg, "x0w": x0w, "x0a": x0a,
                                        "out_units": [su["space"], su["time"], su["quantity"]]}))
         except BaseException as e:  # noqa
             msg = pickle.dumps(("exc", repr(e)[:300]))
@@ -269,6 +280,9 @@ def run(tier, selftest=False, only=None):
                 rep.violation("units", "units:%s-differs" % what,
                               dict(tag, reference=ref[what][:12], got=got[what][:12], explicit_levels=levels))
                 break
+        for what, name in (("x0w", "entries-rewritten-as-bare-numbers"), ("x0a", "state-reassigned-as-bare-numbers")):
+            if not close_vec(ref["x0"], got[what], atol=tol["x0"]):
+                rep.violation("units", "units:x0-differs:" + name, dict(tag, reference=ref["x0"][:12], got=got[what][:12]))
         if (ref["cg"] is None) != (got["cg"] is None):
             rep.violation("units", "units:coarse-grained-route-availability", dict(tag, reference=ref["cg"] is not None))
         elif ref["cg"]:
